@@ -66,7 +66,7 @@ class Hooks:
 OP_CLASSES = {
     "construct": ["vec_list", "vec_list", "vec_tuple", "table_dict", "table_vecs", "vec_of_vecs", "rshift", "rshift", "lshift"],
     "derive": ["copy", "slice", "mask", "index", "select", "rows_cols", "transpose", "sort", "join", "aggregate", "window",
-               "math", "compare", "unary", "cast", "fillna", "dropna", "isna", "unique", "proxy"],
+               "math", "compare", "unary", "cast", "fillna", "dropna", "isna", "unique", "proxy", "to_object", "vtranspose"],
     "read": ["repr", "fingerprint", "len_shape", "iterate", "dir", "schema", "reduce"],
     "view": ["col_view", "col_view", "attr_view", "name_view"],
     "write": ["set_int", "set_int", "set_slice", "set_mask", "set_index", "tset_cell", "tset_row", "tset_col", "tset_region",
@@ -556,6 +556,14 @@ class World:
     def op_unique(self, step):
         a = self.pick(step[1], "vec")
         return None if a is None else self._derive("unique", a, lambda: a.obj.unique())
+
+    def op_to_object(self, step):
+        a = self.pick(step[1], "vec")
+        return None if a is None else self._derive("to_object", a, lambda: a.obj.to_object())
+
+    def op_vtranspose(self, step):
+        a = self.pick(step[1], "vec")
+        return None if a is None else self._derive("vtranspose", a, lambda: a.obj.T)
 
     def op_proxy(self, step):
         a = self.pick(step[1], "vec")
